@@ -16,6 +16,9 @@ def main(tier, seed):
     progs = scenarios.module_scenarios(rng, 1500 if tier == "quick" else 25000)
     profcheck.run_scenarios(rep, "modules", progs, bins, PROP)
     profcheck.run_scenarios(rep, "crossmodule", scenarios.cross_module_scenarios(), bins, PROP)
+    # "within one interpreter ... at most once": the same module imported again by later runs of one interpreter, after runs that failed in
+    # every way; and imports made while a function of the imported module is on the call stack (loaded: no cycle; still loading: a cycle)
+    profcheck.run_scenarios(rep, "rerunreentry", scenarios.module_rerun_scenarios(), bins, PROP)
     rep.coverage["exhaustive"] = False
     rep.sample({"kind": "modules scenario", "id": progs[0][0], "structure": {"snippets": len(progs[0][1]["snips"]), "modules": [m["path"] for m in progs[0][1]["mods"]]}})
     rep.coverage["rule"] = ("seeded import graphs over main + 1-3 modules: every edge present or absent (self loops, 2- and 3-cycles, diamonds), imports at top "
